@@ -615,7 +615,7 @@ def build_and_run(spec, route="direct"):
         rec.delivered = out
         return out
 
-    objs = {"state": state, "op": op, "factory": factory, "allocator": allocator, "sampler": sampler, "circ": circ}
+    objs = {"state": state, "op": op, "op_arg": op_arg, "factory": factory, "allocator": allocator, "sampler": sampler, "circ": circ}
     try:
         if route == "direct":
             est = sampling_estimate(op_arg, state, spec["total"], sampler, factory, allocator, prep)
@@ -1000,6 +1000,28 @@ def k_glue(ctx: Ctx, n_cases: int):
                 c[0] == a[0] == "ok" and len(c[1]) == 2 and all(abs(x - a[1]) <= 1e-12 * (1 + abs(a[1])) for x in c[1]))
             if not okc:
                 ctx.disagree("glue:concurrent_sampling_estimate", spec, str(c)[:200], str(a[:2]))
+            # the remaining public entry points: create_sampling_concurrent_estimator, create_general_sampling_estimator
+            from quri_parts.core.estimator.sampling import create_general_sampling_estimator, create_sampling_concurrent_estimator
+
+            for nm, call in (
+                ("create_sampling_concurrent_estimator",
+                 lambda: [complex(r.value) for r in create_sampling_concurrent_estimator(spec["total"], o["sampler"], o["factory"], o["allocator"])(
+                     [o["op_arg"]], [o["state"]])]),
+                ("create_general_sampling_estimator",
+                 lambda: [complex(create_general_sampling_estimator(spec["total"], o["sampler"], o["factory"], o["allocator"])(o["op_arg"], o["state"]).value)]),
+            ):
+                try:
+                    g = ("ok", call())
+                except Exception as e:  # noqa: BLE001
+                    g = ("err", exc_name(e))
+                okg = (g[0] == a[0] == "err" and g[1] == a[1]) or (
+                    g[0] == a[0] == "ok" and len(g[1]) == 1 and abs(g[1][0] - a[1]) <= 1e-12 * (1 + abs(a[1])))
+                ctx.count("glue", nm + (":ok" if okg else ":DIFF"))
+                if not okg:
+                    ctx.disagree("glue:" + nm, spec, str(g)[:200], str(a[:2]))
+                    if g[0] == "ok" and a[0] == "ok":
+                        ctx.witness("sampling_estimate.value", f"{nm} returns another value than sampling_estimate on the same ideal sampler", spec,
+                                    {"entry_point": str(g[1]), "direct": str(a[1])})
 
 
 def k_pauli(ctx: Ctx, n_cases: int):
